@@ -21,6 +21,7 @@
   Core Lean only.
 -/
 import DiskfsModel.Model.Iso.Codec
+import DiskfsModel.Model.Gpt
 namespace Diskfs.Iso
 
 /-! ### NM -/
@@ -216,6 +217,26 @@ def ucs2Dec : Bytes → List Nat
   | [] => []
   | [a] => [ucs2Rune a.toNat]
   | a :: b :: r => ucs2Rune (a.toNat * 256 + b.toNat) :: ucs2Dec r
+
+/-- 16-bit units as bytes, big endian -/
+def be16Bytes (us : List Nat) : Bytes := us.flatMap fun u => [UInt8.ofNat (u / 256), UInt8.ofNat u]
+
+/-- pairs of bytes as 16-bit units, big endian; a trailing odd byte is a unit of its own -/
+def be16Units : Bytes → List Nat
+  | [] => []
+  | [a] => [a.toNat]
+  | a :: b :: r => (a.toNat * 256 + b.toNat) :: be16Units r
+
+/-- `ucs2StringToBytes` of the tree.  `utf16 = false`: the code as found, two bytes per code point
+    (recorded finding iso-joliet-nonbmp-name); `utf16 = true`: the repaired code, `utf16.Encode`
+    (surrogate pairs beyond the BMP; the mirror of unicode/utf16 is the one of the GPT name field)
+    written big endian.  Which one applies is the regenerated fact `Generated.Iso.jolietUtf16`. -/
+def jolietEnc (utf16 : Bool) (cps : List Nat) : Bytes :=
+  if utf16 then be16Bytes (Gpt.utf16Enc cps) else ucs2Enc cps
+
+/-- `bytesToUCS2String` of the tree, same switch: `utf16.Decode` over the big-endian units -/
+def jolietDec (utf16 : Bool) (b : Bytes) : List Nat :=
+  if utf16 then Gpt.utf16Dec (be16Units b) else ucs2Dec b
 
 /-! ### path table lookup -/
 
